@@ -360,6 +360,7 @@ func checkC18(c *Ctx) {
 	// the scanner reads the json tags the generator writes: name first, options after it
 	checkJSONTags(c, "C18.R4.json-tags", scan)
 	checkImportsIndexed(c, "C18.R5.imports-indexed", scan)
+	checkValueParsers(c, scan)
 	checkPlatformSuffixes(c, "C18.R6.file-suffixes", gen)
 	checkExclusiveMarkers(c, ev)
 }
@@ -695,4 +696,76 @@ func packageRegexpByName(pk *packages.Package, name string) (string, bool) {
 		}
 	}
 	return "", false
+}
+
+
+// checkValueParsers: enum / default / example values written in doc comments are typed by
+// parseValueFromSchema from SimpleSchema.TypeName(), which is the format when there is one. Every
+// (type, format) pair the scanner's own builtin table assigns to a numeric or boolean Go type must
+// therefore be a label of the case that parses that kind — otherwise the values come back as strings.
+func checkValueParsers(c *Ctx, scan *packages.Package) {
+	rule := "C18.R4.value-parsers"
+	c.Rule(rule, "parseValueFromSchema has, for every numeric/boolean (type, format) of the scanner's builtin table, a case labelled by the type name in use (the format if any) that parses that kind", 12)
+	fd := load.FuncDecl(scan, "parseValueFromSchema")
+	if fd == nil {
+		c.Anchor(rule, "codescan.parseValueFromSchema", "not found")
+		return
+	}
+	info := scan.TypesInfo
+	kindOf := map[string]string{} // label → integer | number | boolean
+	ast.Inspect(fd.Body, func(n ast.Node) bool {
+		cc, ok := n.(*ast.CaseClause)
+		if !ok {
+			return true
+		}
+		kind := ""
+		ast.Inspect(cc, func(m ast.Node) bool {
+			if call, ok := m.(*ast.CallExpr); ok {
+				if fn := goan.Callee(info, call); fn != nil {
+					switch goan.CalleeName(fn) {
+					case "strconv.Atoi", "strconv.ParseInt", "strconv.ParseUint":
+						kind = "integer"
+					case "strconv.ParseFloat":
+						kind = "number"
+					case "strconv.ParseBool":
+						kind = "boolean"
+					}
+				}
+			}
+			return true
+		})
+		if kind == "" {
+			return true
+		}
+		for _, e := range cc.List {
+			if s, ok := goan.StringVal(info, e); ok {
+				kindOf[s] = kind
+			}
+		}
+		return true
+	})
+	var names []string
+	for k := range builtinRef {
+		names = append(names, k)
+	}
+	sort.Strings(names)
+	seen := map[string]bool{}
+	for _, goT := range names {
+		tf := builtinRef[goT]
+		if tf[0] != "integer" && tf[0] != "number" && tf[0] != "boolean" {
+			continue
+		}
+		label := tf[1]
+		if label == "" {
+			label = tf[0]
+		}
+		for _, l := range []string{label, tf[0]} {
+			if seen[l] {
+				continue
+			}
+			seen[l] = true
+			c.Check(kindOf[l] == tf[0], rule, "codescan.parseValueFromSchema › "+l, c.posOf(scan, fd.Pos()), "parsed as "+tf[0],
+				fmt.Sprintf("a schema of type %s whose type name is %q (Go %s) has no case parsing %s values (found: %q): enum, default and example values of such a property are kept as strings", tf[0], l, goT, tf[0], kindOf[l]))
+		}
+	}
 }
